@@ -910,6 +910,8 @@ class AWSBatchExecutor(Executor):
         self.interval = config.getfloat("job_monitor_interval", fallback=5.0)
 
         self._thread: Optional[threading.Thread] = None
+        # Guards the decision to start a monitor thread against the monitor's decision to exit.
+        self._monitor_lock = threading.Lock()
         self.arrayer = JobArrayer(
             self._submit_jobs,
             self._on_error,
@@ -989,12 +991,13 @@ class AWSBatchExecutor(Executor):
         """
         Start monitoring thread.
         """
-        if not self.is_running:
-            self._aws_user = aws_utils.get_aws_user()
+        with self._monitor_lock:
+            if not self.is_running:
+                self._aws_user = aws_utils.get_aws_user()
 
-            self.is_running = True
-            self._thread = threading.Thread(target=self._monitor, daemon=False)
-            self._thread.start()
+                self.is_running = True
+                self._thread = threading.Thread(target=self._monitor, daemon=False)
+                self._thread.start()
 
     def stop(self) -> None:
         """
@@ -1043,7 +1046,17 @@ class AWSBatchExecutor(Executor):
         pending_truncate = 10
 
         try:
-            while self.is_running and (self.pending_batch_jobs or self.arrayer.num_pending):
+            while True:
+                # Decide to exit under the lock: a job submitted from now on will find the
+                # monitor not running and start a new one, instead of being left behind.
+                with self._monitor_lock:
+                    if not (
+                        self.is_running
+                        and (self.pending_batch_jobs or self.arrayer.num_pending)
+                    ):
+                        self.is_running = False
+                        break
+
                 if self._scheduler.logger.level >= logging.DEBUG:
                     self.log(
                         f"Preparing {self.arrayer.num_pending} job(s) for Job Arrays.",
@@ -1072,9 +1085,11 @@ class AWSBatchExecutor(Executor):
             # need to catch all exceptions so we can properly report them to
             # the scheduler.
             self._scheduler.reject_job(None, error)
+            self.is_running = False
 
+        # Note: the arrayer and the debug executor are stopped by stop(), not here: a job
+        # submitted concurrently may already rely on them.
         self.log("Shutting down executor...", level=logging.DEBUG)
-        self.stop()
 
     def _can_override_failed(self, job: Mapping[str, Any]) -> tuple[bool, str]:
         """
